@@ -5,11 +5,19 @@
 package main
 
 import (
+	"context"
 	"encoding/hex"
 	"fmt"
+	"io"
+	"net/http"
+	"net/http/httptest"
 	"strconv"
 	"strings"
+	"sync"
 	"time"
+
+	"github.com/honeycombio/refinery/logger"
+	"github.com/honeycombio/refinery/metrics"
 
 	"github.com/honeycombio/refinery/config"
 	kit "github.com/honeycombio/refinery/internal/verifkit"
@@ -124,6 +132,36 @@ func (comp) Gen(r *kit.Rng, maxLen int, tier string) kit.Case {
 
 type runner struct{ cfg *config.MockConfig }
 
+// The outgoing side is observed as the upstream API observes it: one real DirectTransmission
+// (batch size 1, so every event is sent at once) in front of an httptest server that keeps the
+// request bodies.  No unexported identifier of package transmit is named.
+var (
+	outOnce sync.Once
+	outDT   *transmit.DirectTransmission
+	outSrv  *httptest.Server
+	outBody = make(chan []byte, 16)
+)
+
+func outgoing(cfg *config.MockConfig) *transmit.DirectTransmission {
+	outOnce.Do(func() {
+		outSrv = httptest.NewServer(http.HandlerFunc(func(w http.ResponseWriter, r *http.Request) {
+			b, _ := io.ReadAll(r.Body)
+			outBody <- b
+			w.Header().Set("Content-Type", "application/msgpack")
+			w.Write([]byte{0x91, 0x81, 0xa6, 's', 't', 'a', 't', 'u', 's', 0xcc, 0xca}) // [{"status":202}]
+		}))
+		outDT = transmit.NewDirectTransmission(types.TransmitTypeUpstream, &http.Transport{}, 1, time.Hour, 10*time.Second, false, nil)
+		outDT.Config = cfg
+		outDT.Logger = &logger.NullLogger{}
+		outDT.Metrics = &metrics.NullMetrics{}
+		outDT.Version = "verif"
+		if err := outDT.Start(); err != nil {
+			outDT = nil
+		}
+	})
+	return outDT
+}
+
 func (comp) NewCase(h []string) kit.Runner {
 	return &runner{cfg: &config.MockConfig{TraceIdFieldNames: []string{"trace.trace_id"}, ParentIdFieldNames: []string{"trace.parent_id"}}}
 }
@@ -185,16 +223,26 @@ func (r *runner) Do(op []string) (string, bool) {
 	case "enc":
 		sec, _ := strconv.ParseInt(op[1], 10, 64)
 		nsec, _ := strconv.ParseInt(op[2], 10, 64)
-		p := types.NewPayload(r.cfg, map[string]any{"a": 1})
-		b, err := transmit.VerifEvtimeMarshal(time.Unix(sec, nsec).UTC(), p)
-		if err != nil {
+		dt := outgoing(r.cfg)
+		if dt == nil {
 			return "error", true
 		}
-		// 0x83 0xa4 "time" <ext> 0xaa "samplerate"…
-		if len(b) < 6 || string(b[2:6]) != "time" {
+		for len(outBody) > 0 {
+			<-outBody
+		}
+		dt.EnqueueEvent(&types.Event{Context: context.Background(), APIHost: outSrv.URL, APIKey: "k", Dataset: "d", SampleRate: 1,
+			Timestamp: time.Unix(sec, nsec).UTC(), Data: types.NewPayload(r.cfg, map[string]any{"a": 1})})
+		var b []byte
+		select {
+		case b = <-outBody:
+		case <-time.After(10 * time.Second):
+			return "hang", true
+		}
+		// 0x91 (one event) 0x83 0xa4 "time" <ext> 0xaa "samplerate"…
+		if len(b) < 7 || b[0] != 0x91 || string(b[3:7]) != "time" {
 			return "error", true
 		}
-		rest := b[6:]
+		rest := b[7:]
 		var l int
 		switch rest[0] {
 		case 0xd6:
